@@ -191,8 +191,8 @@ func (e *engine) trackerCase(le *logrus.Entry, local *key, remoteStr string, rem
 }
 
 func (e *engine) runC26() {
-	e.rep.Rule = "WebRTC signaling: request_offer / sdp / ice / empty signals (boundary uint64, non-UTF-8 strings, up to 2.5 KB SDP) through EncodeWebRtcSignal (ciphertext equal to the model's) and DecodeWebRtcSignal with the right key, two wrong keys, payloads encrypted under another context, the signal ciphertext decrypted under another context, bit flips, truncation, random bytes; WebRtcSignal.UnmarshalVT vs the model on valid, concatenated (oneof switching / merging), duplicated, truncated, bit-flipped, unknown-field, wrong-wire-type, length-lying and random streams; isOfferer on real peer ID pairs and adversarial strings (equal, prefix, common prefix, high bytes, empty); newSessionTracker role / link peer / signal key for both ends; distinct = distinct op line"
-	e.rep.Require("encode.ok", "decode.ok", "decode.err", "unmarshal.err", "unmarshal.req", "unmarshal.sdp", "unmarshal.ice", "unmarshal.none", "offerer.ok1", "offerer.ok0", "tracker.valid", "tracker.unparsable", "tracker.nokey")
+	e.rep.Rule = "WebRTC signaling: request_offer / sdp / ice / empty signals (boundary uint64, non-UTF-8 strings, up to 2.5 KB SDP, plus SDPs of 4 KiB / 16 KiB / 64 KiB ± {64,40,17,1,0,1,24} bytes (thorough: 1 KiB … 1 MiB)) through EncodeWebRtcSignal (ciphertext equal to the model's) and DecodeWebRtcSignal with the right key, two wrong keys, payloads encrypted under another context, the signal ciphertext decrypted under another context, bit flips, truncation, random bytes; WebRtcSignal.UnmarshalVT vs the model on valid, concatenated (oneof switching / merging), duplicated, truncated, bit-flipped, unknown-field, wrong-wire-type, length-lying and random streams; isOfferer on real peer ID pairs and adversarial strings (equal, prefix, common prefix, high bytes, empty); newSessionTracker role / link peer / signal key for both ends; distinct = distinct op line"
+	e.rep.Require("encode.ok", "encode.big", "decode.ok", "decode.err", "unmarshal.err", "unmarshal.req", "unmarshal.sdp", "unmarshal.ice", "unmarshal.none", "offerer.ok1", "offerer.ok0", "tracker.valid", "tracker.unparsable", "tracker.nokey")
 	le := logrus.NewEntry(logrus.New())
 	keys := []*key{e.newKey(), e.newKey(), e.newKey()}
 	n := 16 * e.a.Scale
@@ -250,6 +250,35 @@ func (e *engine) runC26() {
 		junk := e.rng.Bytes(1 + e.rng.Intn(30))
 		if jc, err := peer.EncryptToPubKey(k.pk, webrtc.SignalingCryptContext, junk); err == nil {
 			e.decodeCase(k, jc, "encrypted-non-signal", "")
+		}
+	}
+	// large signals: sizes around the powers of two where size limits and buffer classes live.
+	// Only the monitor-relevant part (encode succeeds, the peer decodes the same signal) plus the
+	// model comparison; no mutation classes.
+	bigSizes := []int{4096, 16384, 65536}
+	if e.a.Tier == "thorough" {
+		bigSizes = append(bigSizes, 1024, 8192, 32768, 262144, 1<<20)
+	}
+	for bi, base := range bigSizes {
+		for _, d := range []int{-64, -40, -17, -1, 0, 1, 24} {
+			k := keys[bi%3]
+			sz := base + d
+			sdp := string(e.rng.Bytes(sz)) // incompressible: the ciphertext is longer than the plaintext
+			s := &webrtc.WebRtcSignal{Body: &webrtc.WebRtcSignal_Sdp{Sdp: &webrtc.WebRtcSdp{TxSeqno: uint64(bi + 1), SdpType: "offer", Sdp: sdp}}}
+			op := fmt.Sprintf("encrypt.sigEncode pub=%s %s", lib.Hex(k.pub), signalArgs(s))
+			model, _ := e.oracleQuery(op)
+			var ct []byte
+			impl := outcome(func() ([]byte, error) {
+				c, err := webrtc.EncodeWebRtcSignal(s, k.pk)
+				ct = c
+				return c, err
+			})
+			// refusing to encode a large signal is not by itself a violation of C26 (only a model
+			// difference); encoding it for a peer that then cannot decode it is
+			e.rep.Compare(lib.Trunc(op), model, impl, "encode.big", "encrypt.sigEncode:big", "")
+			if ct != nil {
+				e.decodeCase(k, ct, "round-trip-big", showSignal(s))
+			}
 		}
 	}
 	// proto level
